@@ -11,7 +11,7 @@ use std::collections::BTreeMap;
 pub struct C09;
 
 /// stage-1 expressions over dsp's parameter x (and the helper cnt)
-const EXPRS: [&str; 20] = [
+const EXPRS: [&str; 21] = [
     "x + 1.0",
     "x * x - 0.5",
     "cnt(x)",
@@ -32,6 +32,7 @@ const EXPRS: [&str; 20] = [
     "{\n    let ((a, (b, c)), (d, e)) = ((x, (2.0, 3.0)), (4.0, 5.0))\n    a + b * 10.0 + c * 100.0 + d * 1000.0 + e * 10000.0\n  }",
     "{\n    let (((p, q), r), (s, (t, u))) = (((x, 2.0), 3.0), (4.0, (5.0, 6.0)))\n    p + q * 10.0 + r * 100.0 + s * 1000.0 + t * 10000.0 + u * 100000.0\n  }",
     "{\n    let r = {a = x, b = (2.0, 3.0)}\n    let r2 = {r <- a = 7.0}\n    r2.a + r.a + r2.b.1\n  }",
+    "{\n    let {b = q, a = p} = {a = x, b = 2.0}\n    p * 10.0 + q\n  }",
 ];
 /// contexts: (name, staged text with @E@, expansion text with @E@)
 const CONTEXTS: [(&str, &str, &str); 9] = [
@@ -74,6 +75,30 @@ enum Case {
     Pair { staged: String, expanded: String, what: String },
     Lift { src: String, expect: f64, what: String },
 }
+/// Structured values computed at the macro stage and lifted with the polymorphic `lift`: an array of two rows of one
+/// of these shapes (every leaf a distinct number), read back row by row with a destructuring pattern.
+/// (shape name, row constructor over a row number i, pattern, weighted sum of the pattern's variables)
+const LIFT_SHAPES: [(&str, &str, &str, &str); 7] = [
+    ("flat triple", "(@I@ + 0.1, @I@ + 0.2, @I@ + 0.3)", "(a, b, c)", "a * 100.0 + b * 10.0 + c"),
+    ("pair first", "((@I@ + 0.1, @I@ + 0.2), @I@ + 0.3)", "((a, b), c)", "a * 100.0 + b * 10.0 + c"),
+    ("pair last", "(@I@ + 0.1, (@I@ + 0.2, @I@ + 0.3))", "(a, (b, c))", "a * 100.0 + b * 10.0 + c"),
+    ("pair in the middle", "(@I@ + 0.1, (@I@ + 0.2, @I@ + 0.3), @I@ + 0.4)", "(a, (b, c), d)", "a * 1000.0 + b * 100.0 + c * 10.0 + d"),
+    ("two pairs", "((@I@ + 0.1, @I@ + 0.2), (@I@ + 0.3, @I@ + 0.4))", "((a, b), (c, d))", "a * 1000.0 + b * 100.0 + c * 10.0 + d"),
+    ("pair in a pair first", "(((@I@ + 0.1, @I@ + 0.2), @I@ + 0.3), @I@ + 0.4)", "(((a, b), c), d)", "a * 1000.0 + b * 100.0 + c * 10.0 + d"),
+    ("record with a pair in the middle", "{p = @I@ + 0.1, q = (@I@ + 0.2, @I@ + 0.3), r = @I@ + 0.4}", "w", "w.p * 1000.0 + w.q.0 * 100.0 + w.q.1 * 10.0 + w.r"),
+];
+fn n_lift_shapes() -> u64 {
+    LIFT_SHAPES.len() as u64 * 2
+}
+fn build_lift_shape(k: u64) -> Case {
+    let (name, row, pat, sum) = LIFT_SHAPES[(k / 2) as usize];
+    let read = k % 2;
+    let rows = format!("[{}, {}]", row.replace("@I@", "1.0"), row.replace("@I@", "2.0"));
+    let body = format!("  let {pat} = rows[{read}]\n  {sum}");
+    let staged = format!("#stage(macro)\nfn table() {{\n  let rows = {rows}\n  rows |> lift\n}}\n#stage(main)\nfn dsp(x) {{\n  let rows = table!()\n{body}\n}}\n");
+    let expanded = format!("fn dsp(x) {{\n  let rows = {rows}\n{body}\n}}\n");
+    Case::Pair { staged, expanded, what: format!("lift of structured rows: {name}, row {read}") }
+}
 fn build(idx: u64) -> Case {
     if idx < n_main() {
         let (ei, ci) = ((idx / CONTEXTS.len() as u64) as usize, (idx % CONTEXTS.len() as u64) as usize);
@@ -89,6 +114,9 @@ fn build(idx: u64) -> Case {
         let expanded = format!("fn dsp(x) {{\n  {prod}\n}}\n");
         return Case::Pair { staged, expanded, what: format!("code-building recursion genpower({k})") };
     }
+    if k >= NPOW + lifts().len() as u64 {
+        return build_lift_shape(k - NPOW - lifts().len() as u64);
+    }
     let (e, v) = lifts()[(k - NPOW) as usize];
     Case::Lift { src: format!("fn dsp(x) {{\n  $(({e}) |> lift_f)\n}}\n"), expect: v, what: format!("lift_f({e})") }
 }
@@ -98,7 +126,7 @@ impl Prop for C09 {
         "C09"
     }
     fn n_cases(&self, _tier: Tier) -> u64 {
-        n_main() + NPOW + lifts().len() as u64
+        n_main() + NPOW + lifts().len() as u64 + n_lift_shapes()
     }
     fn chunk(&self, _t: Tier) -> u64 {
         8
@@ -169,7 +197,14 @@ impl Prop for C09 {
                 what = w;
             }
         }
-        CaseOut { key: fnv(what.as_bytes()), nontrivial: ran, outcome, fails, tags: vec![format!("context:{ctxtag}")], repr, counters: vec![(format!("context_{ctxtag}"), 1)] }
+        CaseOut { key: fnv(what.as_bytes()), nontrivial: ran, outcome, fails, tags: {
+                let mut t = vec![format!("context:{ctxtag}")];
+                if what.contains("let {") {
+                    t.push("record_pattern_in_staged_code".into());
+                }
+                t
+            },
+            repr, counters: vec![(format!("context_{ctxtag}"), 1)] }
     }
     fn describe_case(&self, _tier: Tier, idx: u64) -> (Value, Vec<String>) {
         match build(idx) {
@@ -180,11 +215,12 @@ impl Prop for C09 {
     fn describe(&self, _tier: Tier) -> Descr {
         Descr {
             rule: format!(
-                "{} stage-1 expressions (arithmetic, stateful call, mem, delay, if, tuple, record, block with let, closures reading and assigning captures, now/samplerate, builtins, pipe) x {} staging contexts (quote-then-splice, identity macro, macro-stage let spliced once / twice, f!(a) and $(f(a)), nested quote/splice, two-argument macro, macro calling a macro), each compared on VM and WASM with the expansion written out by the harness; code-building numeric recursion genpower(n), n = 0..{}, against the unrolled product; {} macro-stage numeric computations lifted with lift_f against the f64 the harness computes (bitwise). non-trivial = both programs ran.",
+                "{} stage-1 expressions (arithmetic, stateful call, mem, delay, if, tuple, record, block with let, closures reading and assigning captures, now/samplerate, builtins, pipe) x {} staging contexts (quote-then-splice, identity macro, macro-stage let spliced once / twice, f!(a) and $(f(a)), nested quote/splice, two-argument macro, macro calling a macro), each compared on VM and WASM with the expansion written out by the harness; code-building numeric recursion genpower(n), n = 0..{}, against the unrolled product; {} macro-stage numeric computations lifted with lift_f against the f64 the harness computes (bitwise); {} structured values (arrays of rows of 7 shapes: flat, nested pairs in every position, a record with a pair field) computed at the macro stage, lifted with the polymorphic `lift` and read back by a destructuring pattern, against the same array written at stage 1. non-trivial = both programs ran.",
                 EXPRS.len(),
                 CONTEXTS.len(),
                 NPOW - 1,
-                lifts().len()
+                lifts().len(),
+                n_lift_shapes()
             ),
             assumptions: vec!["expansions are text templates instantiated by the harness, not produced by the compiler".into(), "macro-stage arithmetic is assumed to be IEEE f64 like Rust's (used for the lift_f expectations)".into()],
             bounds: json!({"expressions": EXPRS.len(), "contexts": CONTEXTS.len(), "context_nesting": 2}),
